@@ -154,6 +154,8 @@ func OpenFile(path string, flag int, perm os.FileMode) (*os.File, error) {
 		ino = fs.newInode(false)
 		fs.Entries[name] = ino
 		fs.DirDirty = true
+	} else if flag&os.O_CREATE != 0 && flag&os.O_EXCL != 0 {
+		return nil, perr("open", path, syscall.EEXIST)
 	}
 	if flag&os.O_TRUNC != 0 {
 		ino.Meta, ino.Valid, ino.Size = nil, false, 0
